@@ -20,6 +20,7 @@ import (
 	"sort"
 	"strings"
 	"sync"
+	"sync/atomic"
 	"time"
 )
 
@@ -47,11 +48,11 @@ var kindName = [...]string{"start", "resume", "send", "recv", "select", "close",
 // chanCase is one communication: a plain send/recv or one arm of a select.
 type chanCase struct {
 	send   bool
-	key    uintptr      // channel identity
-	ref    any          // keeps the channel alive
-	capN   int          // cap(ch)
-	val    any          // value to send
-	probe  func() bool  // non-blocking: is the REAL channel closed (only uninstrumented code closes real channels without us)
+	key    uintptr     // channel identity
+	ref    any         // keeps the channel alive
+	capN   int         // cap(ch)
+	val    any         // value to send
+	probe  func() bool // non-blocking: is the REAL channel closed (only uninstrumented code closes real channels without us)
 	setRcv func(v any, ok bool)
 	m      *chanSt
 }
@@ -93,7 +94,7 @@ type chanSt struct {
 	buf    []any
 	closed bool
 	probed int
-	ps, pr []pref // pending senders / receivers
+	ps, pr []pref  // pending senders / receivers
 	nameT  *thread // canonical name: first-touch thread id + that thread's op count
 	nameN  int
 	last   uint64
@@ -109,43 +110,44 @@ type Event struct {
 }
 
 type Config struct {
-	Prefix      []int // choices to replay (only points with >1 alternative are recorded)
-	Horizon     int   // max transitions, default 20000
-	Trace       bool  // record Events
-	FastBase    bool  // base schedule only: take the first enabled alternative without enumerating the others (no choice points recorded)
-	Fp          bool  // compute state fingerprints at every recorded point
+	Prefix      []int          // choices to replay (only points with >1 alternative are recorded)
+	Horizon     int            // max transitions, default 20000
+	Trace       bool           // record Events
+	FastBase    bool           // base schedule only: take the first enabled alternative without enumerating the others (no choice points recorded)
+	Fp          bool           // compute state fingerprints at every recorded point
 	Seen        map[uint64]int // state fingerprint -> max remaining budget explored (pruning); nil = off
 	Bound       int            // deviation budget (used only with Seen)
 	BaseOrder   int            // 0: continue current thread, then creation order; 1: newest thread first
+	SelectOrder int            // 0: among several ready cases of one select the first in source order is the canonical pick; 1: the last
 }
 
 // Execution is the result of one run.
 type Execution struct {
-	cfg      Config
-	threads  []*thread
-	live     []*thread // not done, in creation order
-	fpAcc    uint64    // incremental state fingerprint: sum over threads of contrib(t)
-	running  *thread
-	main     *thread
-	chans    map[uintptr]*chanSt
-	objLast  map[any]uint64
-	finished chan struct{}
+	cfg         Config
+	threads     []*thread
+	live        []*thread // not done, in creation order
+	fpAcc       uint64    // incremental state fingerprint: sum over threads of contrib(t)
+	running     *thread
+	main        *thread
+	chans       map[uintptr]*chanSt
+	objLast     map[any]uint64
+	finished    chan struct{}
 	cancelEpoch int
-	dead     bool
-	fail     string
+	dead        bool
+	fail        string
 
-	Choices   []int // the pick at every recorded point
-	NAlts     []int // number of alternatives at that point
-	Fps       []uint64 // state fingerprint BEFORE each recorded point
-	Steps     int
-	Events    []Event
-	Outcome   string // "ok" | "deadlock" | "horizon" | "panic" | "pruned" | "diverged"
-	PanicMsg  string
-	Leaked    []string // threads alive at the end, with their pending op
-	MaxLive   int
-	NThreads  int
-	Devs      int
-	FinalFp   uint64
+	Choices  []int    // the pick at every recorded point
+	NAlts    []int    // number of alternatives at that point
+	Fps      []uint64 // state fingerprint BEFORE each recorded point
+	Steps    int
+	Events   []Event
+	Outcome  string // "ok" | "deadlock" | "horizon" | "panic" | "pruned" | "diverged"
+	PanicMsg string
+	Leaked   []string // threads alive at the end, with their pending op
+	MaxLive  int
+	NThreads int
+	Devs     int
+	FinalFp  uint64
 }
 
 var cur *Execution
@@ -167,7 +169,14 @@ func me() *thread {
 
 // Run executes body as thread "0" under the scheduler and returns when the
 // system is quiescent (no enabled transition) or the horizon is reached.
+// Epoch counts executions: per-process state that must not leak from one execution into the next
+// (vsync.Pool contents) is dropped when the epoch changes.
+func Epoch() uint64 { return atomic.LoadUint64(&runEpoch) }
+
+var runEpoch uint64
+
 func Run(cfg Config, body func()) *Execution {
+	atomic.AddUint64(&runEpoch, 1)
 	if cur != nil {
 		panic("vsched: nested Run")
 	}
@@ -517,6 +526,12 @@ func (ex *Execution) altsOf(t *thread, out []alt) []alt {
 	}
 	if o.kind == kSelect && o.hasDef && len(out) == n0 && !anyReady {
 		out = append(out, alt{t: t, caseIdx: -1})
+	}
+	if ex.cfg.SelectOrder == 1 {
+		// the canonical pick among several ready cases of one select is the LAST one in source order
+		for i, j := n0, len(out)-1; i < j; i, j = i+1, j-1 {
+			out[i], out[j] = out[j], out[i]
+		}
 	}
 	return out
 }
